@@ -22,6 +22,7 @@ import (
 	"github.com/AdguardTeam/AdGuardHome/internal/filtering/rulelist"
 	"github.com/AdguardTeam/AdGuardHome/verifsim/kernel"
 	ls "github.com/AdguardTeam/AdGuardHome/verifsim/listsim"
+	"github.com/AdguardTeam/AdGuardHome/verifsim/sched"
 	"pgregory.net/rapid"
 )
 
@@ -46,7 +47,7 @@ type Rep struct {
 
 // Op is one generated operation.
 type Op struct {
-	// K: add seturl remove refresh advance restart config.
+	// K: add seturl remove refresh advance restart config par.
 	K   string `json:"k"`
 	U   int    `json:"u,omitempty"`
 	U2  int    `json:"u2,omitempty"`
@@ -58,6 +59,13 @@ type Op struct {
 	// Local, if set, puts the local list file into a state before the
 	// operation: K write (content C, variant Alt) | missing | dir.
 	Local *Rep `json:"local,omitempty"`
+	// A concurrent phase (K par): Tasks run as tasks of the seeded cooperative
+	// scheduler (the interleaving at lock operations and at the list server's
+	// latency is a function of Seed; Pct is the preemption probability), after
+	// the clock has been advanced by S seconds.
+	Seed  uint64    `json:"seed,omitempty"`
+	Pct   int       `json:"pct,omitempty"`
+	Tasks []ParTask `json:"tasks,omitempty"`
 }
 
 // InitList is a list present in the configuration at first start (no file yet).
@@ -103,7 +111,7 @@ var (
 
 // opKinds is the weighted table of operation kinds (interleaved, because the
 // generator favours small indices).
-var opKinds = []string{"refresh", "advance", "add", "seturl", "advance", "refresh", "restart", "advance", "remove", "refresh", "seturl", "add", "advance", "config", "refresh", "restart", "advance", "seturl"}
+var opKinds = []string{"refresh", "advance", "add", "par", "seturl", "advance", "refresh", "restart", "par", "advance", "remove", "refresh", "seturl", "add", "par", "advance", "config", "refresh", "restart", "advance", "seturl"}
 
 func genContent(t *rapid.T) ls.Content {
 	n := rapid.IntRange(0, 10).Draw(t, "n_parts")
@@ -260,11 +268,22 @@ func Gen(t *rapid.T, tier string) any {
 		case "restart":
 			op = Op{K: "restart", S: rapid.SampledFrom([]int64{30, 0, 2, 30, 5, 30}).Draw(t, "downtime")}
 			plan = false
+		case "par":
+			op = Op{K: "par", Seed: rapid.Uint64().Draw(t, "par_seed"), Pct: rapid.SampledFrom([]int{20, 50, 80}).Draw(t, "par_pct"),
+				S: rapid.SampledFrom([]int64{0, int64(ivl)*3600 + 10, 0, 3700, 60, 0}).Draw(t, "par_secs")}
+			op.Tasks = genPar(t, nc, sc.TimeoutS, pick, sideOf, side)
+			plan = false
 		default:
 			op = Op{K: "config", H: rapid.SampledFrom([]int{1, 0, 12, 1, 24, 72}).Draw(t, "new_interval")}
 			plan = false
 		}
-		if _, ok := side[localIdx]; ok && op.K != "restart" && op.K != "config" && rapid.IntRange(0, 2).Draw(t, "touch_local") == 0 || (op.K == "add" || op.K == "seturl") && (op.U == localIdx || op.U2 == localIdx) && rapid.IntRange(0, 3).Draw(t, "prepare_local") != 0 {
+		usesLocal := (op.K == "add" || op.K == "seturl") && (op.U == localIdx || op.U2 == localIdx)
+		for _, pt := range op.Tasks {
+			if (pt.K == "add" || pt.K == "seturl") && (pt.U == localIdx || pt.U2 == localIdx) {
+				usesLocal = true
+			}
+		}
+		if _, ok := side[localIdx]; ok && op.K != "restart" && op.K != "config" && rapid.IntRange(0, 2).Draw(t, "touch_local") == 0 || usesLocal && rapid.IntRange(0, 3).Draw(t, "prepare_local") != 0 {
 			lp := Rep{K: rapid.SampledFrom([]string{"write", "write", "missing", "write", "dir", "write"}).Draw(t, "local_state")}
 			if lp.K == "write" {
 				lp.C = rapid.IntRange(0, nc-1).Draw(t, "local_content")
@@ -328,6 +347,14 @@ type run struct {
 	localTag   string
 	// bookkeeping for the message of list-id-reused
 	startAt, prevStartAt time.Time
+	// the concurrent phase: which goroutine runs which task, the tasks' planned
+	// replies, the task that made the n-th request
+	inPar       bool
+	parOwner    map[uint64]int
+	parPlan     [][]Rep
+	parReqOwner []int
+	// abandon: a deadlock was found; the parked tasks hold the module's locks.
+	abandon bool
 }
 
 // errStop ends a case after a tolerated known finding that leaves the system
@@ -416,11 +443,12 @@ func (r *run) reply(url string, rep Rep) ls.Reply {
 		body = splitVariant(body)
 	}
 	kind := rep.K
-	if r.sc.Ops[r.opIdx].K == "seturl" {
+	if k := r.sc.Ops[r.opIdx].K; k == "seturl" || k == "par" {
 		// set_url downloads while holding the list mutex; the updates-loop
 		// timer firing during a stall would then block on that mutex, which a
 		// synctest bubble cannot treat as idle (simulated time would stop).
 		// Inside set_url a stall is therefore delivered as a dead connection.
+		// (In a concurrent phase the clock stands still: the same.)
 		switch kind {
 		case ls.KindSlowHdr:
 			kind, rep.P = ls.KindCutHdr, 0
@@ -441,7 +469,19 @@ func (r *run) reply(url string, rep Rep) ls.Reply {
 }
 
 func (r *run) planFn(url string) ls.Reply {
-	if len(r.plan) > 0 {
+	if r.inPar {
+		// a task's requests are answered from that task's plan
+		t, ok := r.parOwner[goid()]
+		if !ok {
+			t = -1
+		}
+		r.parReqOwner = append(r.parReqOwner, t)
+		if ok && len(r.parPlan[t]) > 0 {
+			rep := r.parPlan[t][0]
+			r.parPlan[t] = r.parPlan[t][1:]
+			return r.reply(url, rep)
+		}
+	} else if len(r.plan) > 0 {
 		rep := r.plan[0]
 		r.plan = r.plan[1:]
 		return r.reply(url, rep)
@@ -610,6 +650,8 @@ type opOutcome struct {
 	failedSetURL *mlist
 	// the list a successful set_url was applied to
 	target *mlist
+	// that list was disabled before the request and is enabled now
+	reenabled bool
 }
 
 // setLocal puts the local list file into the planned state.
@@ -771,6 +813,7 @@ func (r *run) membership(op Op, out *opOutcome, recs []*ls.Record) error {
 			} else if tgt.url != u2 {
 				tgt.unloaded = "url-changed"
 			}
+			out.reenabled = !tgt.enabled && op.En
 			tgt.url, tgt.enabled = u2, op.En
 			out.target = tgt
 			r.c.Probe("seturl_accepted")
@@ -1233,6 +1276,9 @@ func (r *run) check(op Op, out *opOutcome, recs []*ls.Record) error {
 						cls = "stored-list-not-in-force-after-failed-downloads"
 					}
 					stale = kernel.Violationf(cls, "%s: verdict %s, the lists now stored give %s: the engines were not rebuilt after a refresh that replaced a list file; requests: %s", name, got.Reason, want, fmtRecs(recs))
+				case pass == 0 && op.K == "seturl" && out.reenabled && !anyStoredChanged && r.verdictWithout(out.target, v) == got.Reason:
+					// (a more specific name for what would be a verdict-mismatch)
+					stale = kernel.Violationf("enabled-list-not-in-force-when-unchanged", "%s: verdict %s, the lists stored and enabled give %s: set_url enabled the list id=%d, answered 200 and found its content unchanged (the file was kept), and the engines were not rebuilt, so the enabled list is not in force; requests: %s", name, got.Reason, want, out.target.id, fmtRecs(recs))
 				default:
 					return kernel.Violationf("verdict-mismatch", "%s: verdict %s, the lists stored give %s (before the operation: %s); requests: %s", name, got.Reason, want, before, fmtRecs(recs))
 				}
@@ -1312,6 +1358,7 @@ func Run(t *testing.T, scAny any, c *kernel.Ctx) error {
 		return err
 	}
 	defer os.RemoveAll(dir)
+	sched.Init()
 	return bubble(t, func() error {
 		r := &run{sc: sc, c: c, dir: dir, cur: map[string]int{}, verdicts: map[string]string{}}
 		for v := range sc.Contents {
@@ -1347,7 +1394,12 @@ func Run(t *testing.T, scAny any, c *kernel.Ctx) error {
 		if r.n, err = ls.Open(opt, r.srv); err != nil {
 			return fmt.Errorf("harness: filtering.New: %w", err)
 		}
-		defer func() { r.n.Close(); r.n.Drain() }()
+		defer func() {
+			if !r.abandon {
+				r.n.Close()
+				r.n.Drain()
+			}
+		}()
 		for i, op := range sc.Ops {
 			r.opIdx = i
 			r.plan = append([]Rep(nil), op.Srv...)
@@ -1358,13 +1410,16 @@ func Run(t *testing.T, scAny any, c *kernel.Ctx) error {
 				}
 				c.Eventf("  local file: %s", r.localTag)
 			}
-			out, err := r.apply(op)
-			if err == nil {
+			var out *opOutcome
+			var err error
+			if op.K == "par" {
+				err = r.par(op)
+			} else if out, err = r.apply(op); err == nil {
 				c.SimTime += r.n.Settle()
 				err = ls.FixMtimes(opt.DataDir)
 			}
 			var recs []*ls.Record
-			if err == nil {
+			if err == nil && op.K != "par" {
 				recs = append(r.srv.Take(), r.localRecords(op, out)...)
 				r.countFaults(recs)
 				c.Eventf("  -> %d; requests %s", out.code, fmtRecs(recs))
@@ -1393,6 +1448,7 @@ var Prop = &kernel.Property{
 	Rule: "seeded histories (rapid) of add_url / set_url (new location, disable, re-enable) / remove_url / forced refresh / clock advance past the update interval (the real updates-loop timer refreshes) / restart / interval change over block and allow lists, " +
 		"against a list server that per request serves generated text (mixed line ends, blanks, comments, titles, long lines, control bytes, same rules in other clothes, same characters split differently) in three framings or fails (dial, status, cut in headers, cut body with Content-Length or chunked at after-headers / mid-line / line-boundary / last-byte, stall past the client timeout, HTML page, binary body); " +
 		"one list location is a local file under a safe pattern that the harness rewrites, deletes or turns into a directory; " +
+		"concurrent phases (op par): 2-4 of forced refresh / the updates loop's periodic refresh and pending engine initialisations / add_url / set_url / remove_url / interval change / configuration write-out run as tasks of a seeded cooperative scheduler (switches at every lock operation of the instrumented tree and at the list server's latency; the schedule is a function of the op's seed), each task's requests answered from its own plan, and the outcome (answers incl. 'updated' and 'refresh in progress', list set, files, rules_count, last_updated, rules in force) must equal that of one serial order of the tasks under the reference model; " +
 		"a case is non-trivial when >=1 changed content was stored and >=1 injected fault fired; distinct = distinct scenario digests",
 	Gen: Gen,
 	New: func() any { return &Scenario{} },
@@ -1413,15 +1469,17 @@ var Prop = &kernel.Property{
 		"for completely delivered text that contains control bytes, HTML mark-up or lines longer than 60000 bytes both outcomes are accepted: nothing changed, or the normal form stored",
 		"a completely delivered text whose rule lines have the same CRC-32 as the stored ones may be kept un-stored (the statement's 'unchanged checksum')",
 		"HTTP bodies delimited by connection close are only generated complete (truncation is invisible by protocol design)",
-		"operations are serialised (mode A): the next operation starts when the previous refresh has finished",
+		"outside the concurrent phases operations are serialised (mode A): the next operation starts when the previous refresh has finished",
+		"concurrent phase (mode D): the simulated clock stands still during the phase (stalls are delivered as dead connections, as inside set_url); the updates loop's goroutine is stopped before the phase and started again after it, its two bodies run as one task; a request a task makes for a location that names no list at the task's position in a serial order is ignored by that order (as the sequential oracle ignores it); reads of the local list file count as 'may have been read' for every task; last_updated is only required to be unchanged for a list no operation concerned and to carry the phase's instant for a list whose content was stored; rules_count of a disabled list is not asserted",
 		"reads of the local-file list are not intercepted: a forced refresh of its kind certainly reads it (strict expectation); during other operations the list may show either its previous state or the normal form of the file's current content, and only its previous state while the file is unreadable",
 		"a stalled download inside set_url is delivered as a dead connection (set_url holds the list mutex while downloading; a timer-driven refresh blocking on that mutex would stop the simulated clock); stalls past the client timeout are simulated for add_url, forced and scheduled refresh",
 	},
-	FaultKinds: []string{"dial_error", "status_not_200", "cut_in_headers", "cut_content_length", "cut_chunked", "slow_headers_timeout", "slow_body_timeout", "html_page", "binary_body", "local_file_missing", "local_file_is_directory", "clean_restart"},
+	FaultKinds: []string{"dial_error", "status_not_200", "cut_in_headers", "cut_content_length", "cut_chunked", "slow_headers_timeout", "slow_body_timeout", "html_page", "binary_body", "local_file_missing", "local_file_is_directory", "clean_restart", "concurrent_phase"},
 	ProbeNames: []string{"refresh_forced", "refresh_scheduled", "refresh_partly_failed", "refresh_all_failed", "failed_refresh_left_list_unchanged", "changed_content_stored_as_normal_form", "unchanged_content_kept_inode",
 		"allow_list_updated", "add_accepted", "add_rejected", "seturl_accepted", "seturl_rejected", "seturl_download_failed", "list_removed", "restart_reparsed_same_count",
 		"cut_before_any_byte", "cut_after_headers", "cut_mid_line", "cut_at_line_boundary", "cut_before_last_byte", "complete_chunked", "complete_close_delimited", "slow_but_in_time",
-		"ambiguous_text_accepted", "ambiguous_text_rejected", "same_checksum_other_text_kept_old", "same_content_from_new_location", "probe_name_in_merged_line", "local_file_read"},
+		"ambiguous_text_accepted", "ambiguous_text_rejected", "same_checksum_other_text_kept_old", "same_content_from_new_location", "probe_name_in_merged_line", "local_file_read",
+		"sched_steps", "sched_switches", "par_serial_order_found", "par_order_matters", "par_refresh_busy", "par_changed_content_stored", "par_config_written_out", "par_refresh_and_change_of_same_list"},
 }
 
 // bubble is kernel.Bubble (a variable so that a debugging test can run a
